@@ -1458,8 +1458,23 @@ func runC07(c *Check) {
 		var below, hdr, dataOK, sameBlock bool
 		for _, f := range alt {
 			t, s := f.Cond, f.Cond.String()
-			if t.Op == "bin" && t.Name == "<" && !f.Pol && strings.Contains(t.Args[0].String(), "Store).Height(") && t.Args[1].String() == hParam {
-				below = true
+			// height <= Store.Height(), in any spelling — with the store height itself, not a
+			// value computed from it (store height + 1 lets the includer pass a block that is
+			// saved but not yet committed)
+			if t.Op == "bin" && len(t.Args) == 2 {
+				isStoreH := func(x *Term) bool {
+					x = x.unconv()
+					return x.Op == "extract" && x.Name == "0" && len(x.Args) == 1 && x.Args[0].Op == "invoke" && strings.HasSuffix(x.Args[0].Name, "Store).Height")
+				}
+				isH := func(x *Term) bool { return x.unconv().String() == hParam }
+				a, b := t.Args[0], t.Args[1]
+				switch {
+				case t.Name == "<" && !f.Pol && isStoreH(a) && isH(b),
+					t.Name == ">=" && f.Pol && isStoreH(a) && isH(b),
+					t.Name == ">" && !f.Pol && isH(a) && isStoreH(b),
+					t.Name == "<=" && f.Pol && isH(a) && isStoreH(b):
+					below = true
+				}
 			}
 			if f.Pol && t.IsCall("Cache[_]).IsDAIncluded") && t.Args[0].Name == "headerCache" && strings.Contains(s, "types.Header).Hash(") && strings.Contains(s, "GetBlockData(") {
 				hdr = true
